@@ -136,6 +136,12 @@ impl LinCase {
 
     /// Builds the rooc model through the public constructors.
     pub fn to_rooc(&self) -> LinearModel {
+        self.to_rooc_with(|_, r| r.to_rooc())
+    }
+
+    /// The same, with the relation of row i chosen by the caller (strict relations exist in the
+    /// linear model although no generator of feasible sets uses them).
+    pub fn to_rooc_with(&self, rel_of: impl Fn(usize, R) -> Comparison) -> LinearModel {
         let sense = match self.sense {
             Sense::Min => OptimizationType::Min,
             Sense::Max => OptimizationType::Max,
@@ -146,8 +152,8 @@ impl LinCase {
             for (name, dom) in &self.vars {
                 m.add_variable(name, dom.to_rooc());
             }
-            for r in &self.rows {
-                m.add_named_constraint(r.coef.clone(), r.rel.to_rooc(), r.rhs, &r.name);
+            for (i, r) in self.rows.iter().enumerate() {
+                m.add_named_constraint(r.coef.clone(), rel_of(i, r.rel), r.rhs, &r.name);
             }
             m.set_objective(self.obj.clone(), sense);
             m
@@ -162,10 +168,11 @@ impl LinCase {
             let rows = self
                 .rows
                 .iter()
-                .map(|r| {
+                .enumerate()
+                .map(|(i, r)| {
                     let mut c = r.coef.clone();
                     c.resize(self.n(), 0.0);
-                    LinearConstraint::new_with_name(c, r.rel.to_rooc(), r.rhs, r.name.clone())
+                    LinearConstraint::new_with_name(c, rel_of(i, r.rel), r.rhs, r.name.clone())
                 })
                 .collect();
             let mut obj = self.obj.clone();
